@@ -1331,6 +1331,8 @@ class Engine:
         raise Unsupported(f"identity of pointer {p}")
 
     def cast(self, v, ty, kind, from_ty):
+        if kind == "Subtype":
+            return v            # a change of lifetime variance only: same value
         if kind.startswith("PointerCoercion") or kind in ("PtrToPtr", "FnPtrToPtr", "Transmute") and isinstance(v, (Ptr, FnItem, Closure)):
             return v
         if kind == "IntToInt" and z3.is_expr(v) and z3.is_int(v):
